@@ -8,6 +8,8 @@
   8. `restart_detected_status`, `restart_detected_count`: a status refresh that sees another core start or
        pid, and any full refresh with another number of rows, answers `restartRequired` and writes no row;
        `restart_rebuilds`: the loop then rebuilds at once.
+  9. `failed_rebuild_remembers_restart`: a rebuild that fails while the previous set is still published keeps
+       the core start / pid the peer remembered before, so the next status refresh detects the restart again.
 
   Helper lemmas live in `Lmd.Lemmas.PeerLemmas`.
 -/
@@ -203,5 +205,47 @@ theorem restart_rebuilds (w : World) (now : Int) (p : PeerSt) (b : BackendSt) (c
   unfold deltaRun finishStep
   simp only [h]
   exact ⟨trivial, trivial⟩
+
+/-! ## 9. a failed rebuild does not forget the restart -/
+
+/-- A rebuild that fails while a data set is still published (the previous one) leaves the peer with the
+    `program_start` and pid it remembered before the rebuild, not with the values the rebuild read from the
+    restarted backend.  Consequently the restart stays detectable: whenever the next status refresh (at any later
+    time, against any backend behaviour, over any table set) is answered with a single status row whose
+    `program_start` or `nagios_pid` differs from those remembered values (both non-zero), it reports
+    `restartRequired` again and writes nothing - the stale set is not silently updated with values of another
+    core instance. -/
+theorem failed_rebuild_remembers_restart (w : World) (now : Int) (p : PeerSt) (b : BackendSt)
+    (he : (initAllTables w now p b).err ≠ .none) (hc : (initAllTables w now p b).p.cache.isSome = true) :
+    ((initAllTables w now p b).p.programStart = p.programStart ∧ (initAllTables w now p b).p.corePid = p.corePid) ∧
+    ∀ (now' : Int) (b' : BackendSt) (c : Cache) (st : ReplyRow),
+      (dynamicCols w.schema (initAllTables w now p b).p.flags "status").isEmpty = false →
+      (query w now' (initAllTables w now p b).p b').2.2 = none → b'.rows "status" = [st] →
+      p.programStart ≠ 0 → p.corePid ≠ 0 →
+      (replyInt st "program_start" ≠ p.programStart ∨ replyInt st "nagios_pid" ≠ p.corePid) →
+      (updateFullTable w now' (initAllTables w now p b).p b' c "status").err = .restartRequired ∧
+        (updateFullTable w now' (initAllTables w now p b).p b' c "status").cache = c := by
+  obtain ⟨h1, h2⟩ := initAllTables_failed_remembers he hc
+  refine ⟨⟨h1, h2⟩, fun now' b' c st hdyn hq hrow hps hpid hdiff => ?_⟩
+  exact restart_detected_status w now' _ b' c st hdyn hq hrow (by rw [h1]; exact hps) (by rw [h2]; exact hpid)
+    (by rw [h1, h2]; exact hdiff)
+
+/-- a peer that is `Up` with a (here: empty) published set, seen just now, remembering core start 4 and pid 7 -/
+def exPeerUp : PeerSt := { status := .up, cache := some [], lastError := "", lastOnline := 100, programStart := 4, corePid := 7 }
+
+/-- non-vacuity: the rebuild against a backend that closes the connection on the fourth request fails with the
+    old set still published; the backend's status row (core start 5) then differs from the remembered 4 -/
+example : (initAllTables exWorld2 100 exPeerUp exFailing).err ≠ .none ∧
+    (initAllTables exWorld2 100 exPeerUp exFailing).p.cache.isSome = true ∧
+    (dynamicCols exWorld2.schema (initAllTables exWorld2 100 exPeerUp exFailing).p.flags "status").isEmpty = false ∧
+    (query exWorld2 107 (initAllTables exWorld2 100 exPeerUp exFailing).p exBackend).2.2 = none ∧
+    exPeerUp.programStart ≠ 0 ∧ exPeerUp.corePid ≠ 0 ∧
+    replyInt [("program_start", Lean.Json.num 5), ("nagios_pid", Lean.Json.num 7)] "program_start" ≠ exPeerUp.programStart := by
+  decide
+
+/-- the clean-up is what makes this true: before it, the same failed rebuild has already overwritten the remembered
+    core start with the new one (5), and the next status refresh would see nothing unusual -/
+example : (initAllTablesRaw exWorld2 100 exPeerUp exFailing).p.programStart = 5 ∧
+    (initAllTables exWorld2 100 exPeerUp exFailing).p.programStart = 4 := by decide
 
 end Lmd.C11
